@@ -290,6 +290,99 @@ func c16Check(c *fw.Ctx, env types.EnvType, id string, toks []c16Tok, text strin
 	})
 }
 
+// c16Verdict3 is what C16 is about: accepted / incomplete (and which closer the error names) / rejected.
+func c16Verdict3(text string, env types.EnvType) (string, bool) {
+	var err error
+	p, _, _, _ := fw.Guard(func() { _, err = lisp.READ(text, types.NewCursorFile("REPL"), env) })
+	switch {
+	case p:
+		return "", false // panics are reported by c16Check / C05
+	case err == nil:
+		return "accepted", true
+	case repl.VerifMultiLine(err):
+		m := err.Error()
+		if i := strings.LastIndex(m, "expected '"); i >= 0 {
+			m = m[i:]
+		}
+		return "incomplete:" + m, true
+	}
+	return "rejected", true
+}
+
+// c16Grown: the way an interactive front end uses the reader - the same text is submitted again and again, longer each
+// time. The text is a complete expression; it is cut at arbitrary characters (inside comments, atoms and strings too),
+// the prefixes are read in growing order, and every reading must be classified exactly as the same text is classified
+// when the reading before it was an unrelated one: the verdict is a function of the text, not of what was read earlier
+// (seeded C16-m13: tokens of the last unfinished text cached and reused for any text that starts with it).
+func c16Grown(c *fw.Ctx, env types.EnvType, r *rand.Rand, id string, full string) {
+	c.Case(id, full, func() {
+		var offs []int
+		for i := range full {
+			if i > 0 {
+				offs = append(offs, i)
+			}
+		}
+		if len(offs) == 0 {
+			return
+		}
+		n := 2 + r.Intn(5)
+		cuts := map[int]bool{}
+		for k := 0; k < n; k++ {
+			cuts[offs[r.Intn(len(offs))]] = true
+		}
+		// consecutive characters as well: a continuation of one character
+		p0 := offs[r.Intn(len(offs))]
+		cuts[p0] = true
+		for _, o := range offs {
+			if o > p0 {
+				cuts[o] = true
+				break
+			}
+		}
+		var seq []int
+		for _, o := range offs {
+			if cuts[o] {
+				seq = append(seq, o)
+			}
+		}
+		seq = append(seq, len(full))
+		after := make([]string, len(seq))
+		for k, o := range seq {
+			v, ok := c16Verdict3(full[:o], env)
+			if !ok {
+				return
+			}
+			after[k] = v
+			c.Count("grown_text_readings", 1)
+			if o < len(full) && !strings.ContainsAny(full[o-1:o], " \t\r\n") && !strings.ContainsAny(full[o:o+1], " \t\r\n") {
+				c.Count("grown_text_cuts_inside_a_token_or_between_adjacent_tokens", 1)
+			}
+		}
+		for k, o := range seq {
+			if _, ok := c16Verdict3("unrelated-symbol", env); !ok {
+				return
+			}
+			alone, ok := c16Verdict3(full[:o], env)
+			if !ok {
+				return
+			}
+			if alone != after[k] {
+				prev := "(nothing)"
+				if k > 0 {
+					prev = full[:seq[k-1]]
+				}
+				c.Violate(fw.Violation{Key: "verdict-depends-on-earlier-reading", What: fmt.Sprintf("READ(%q) is classified %q after READ(%q) but %q after an unrelated reading", full[:o], after[k], prev, alone)})
+				return
+			}
+		}
+		if after[len(after)-1] != "accepted" {
+			c.Violate(fw.Violation{Key: "complete-rejected-after-prefixes", What: fmt.Sprintf("the complete expression is classified %q when its prefixes were read before it", after[len(after)-1])})
+			return
+		}
+		c.Count("grown_text_sequences", 1)
+	})
+}
+
 var c16Atoms = []c16Tok{{"a", 'y'}, {"foo-bar", 'y'}, {"12", 'a'}, {"-3", 'a'}, {"nil", 'a'}, {"true", 'a'}, {":k", 's'}, {`"s"`, 's'},
 	{`"(]{"`, 's'}, {`")"`, 's'}, {`"a\"]b"`, 's'}, {"¬}¬", 's'}, {"¬(¬¬[¬", 's'}, {`"»"`, 's'}, {`"#{"`, 's'}, {"¬multi\nline)¬", 's'}}
 var c16Strs = []c16Tok{{":k", 's'}, {`"s"`, 's'}, {`"(]{"`, 's'}, {"¬}¬", 's'}, {`")"`, 's'}, {":k2", 's'}, {`"t"`, 's'}}
@@ -466,6 +559,9 @@ func runC16(c *fw.Ctx) {
 		c16GenExpr(r, r.Intn(3), false, &second)
 		t3 := append(append([]c16Tok(nil), toks...), second...)
 		c16Check(c, e, fmt.Sprintf("two-%d", i), t3, c16Join(r, t3), "two-expressions")
+		if i%4 == 0 {
+			c16Grown(c, e, r, fmt.Sprintf("grown-%d", i), full)
+		}
 	}
 	// concurrent readers over the texts collected above
 	if len(c16Pool) >= 8 {
@@ -484,7 +580,7 @@ func init() {
 	fw.Register(&fw.Property{
 		ID:     "C16",
 		Run:    runC16,
-		Rule:   "every token sequence up to the tier's length over {( ) [ ] { } #{ a \"s\" ' ^ comment} plus, for seeded well-formed expressions of <=40 tokens over all bracket kinds, reader macros, strings/raw strings/comments containing brackets and «go-error …»: the full text, every cut after a token, every closer appended, one closer replaced by another kind, and a second expression appended; each text is classified by the harness's own bracket-stack machine (complete / completable by closers with innermost closer / surplus, mismatch or several expressions / otherwise malformed) and READ's error is judged with the REPL's own multiLine classifier; distinct = distinct token sequences; REPL sessions: the real loop (repl.Execute, readline fed from a pipe) receives 2-6 self-evaluating entries typed over several lines with comments (some containing brackets) at line ends and on lines of their own: exactly one result line per entry, equal to the entry's value",
+		Rule:   "every token sequence up to the tier's length over {( ) [ ] { } #{ a \"s\" ' ^ comment} plus, for seeded well-formed expressions of <=40 tokens over all bracket kinds, reader macros, strings/raw strings/comments containing brackets and «go-error …»: the full text, every cut after a token, grown texts (the complete text cut at 3-8 arbitrary characters, also inside comments, atoms and strings; the prefixes read in growing order; each verdict must equal the verdict of the same text read after an unrelated text), every closer appended, one closer replaced by another kind, and a second expression appended; each text is classified by the harness's own bracket-stack machine (complete / completable by closers with innermost closer / surplus, mismatch or several expressions / otherwise malformed) and READ's error is judged with the REPL's own multiLine classifier; distinct = distinct token sequences; REPL sessions: the real loop (repl.Execute, readline fed from a pipe) receives 2-6 self-evaluating entries typed over several lines with comments (some containing brackets) at line ends and on lines of their own: exactly one result line per entry, equal to the entry's value",
 		Assume: []string{"'completable by appending closers' is computed by the harness stack machine (pending reader-macro operands, odd map arity, non-string map keys / set members make a prefix not completable: then only 'not accepted' is demanded)"},
 		Finish: func(m *fw.Merged) {
 			for _, cl := range []string{")", "]", "}"} {
